@@ -27,6 +27,18 @@ CLAIMED = {
             "deterministic simulation with fault injection: per world every truncation point / read fault / bit flip / include cycle / hostile mutation, x 6 commands, in crash- and hang-detecting worker processes",
             "For each seeded world the fault space is enumerated one fault at a time: the file torn at every byte (thorough; ~30-60 biased cuts per file in quick), vanish/EIO/permission/canonicalize failure/bit flip on each file, include cycles, grammar-aware mutations, deep nesting, huge literals, zero divisors; each faulted world is fed to format, accounts, balance, register, flatten and eval. Oracle is totality only: Ok or Err with a message; panics are caught and signed by call site, aborts/stack overflows/hangs are detected by the parent from worker death or silence and re-executed in a fresh process.",
             "Stack-overflow thresholds are those of an 8 MiB thread in the opt-level-2 simulation build. Numbers outside the decimal range are exempt by the statement (counted as C06/out-of-range). One known finding (deep parenthesis nesting) is listed in known_findings.json."),
+    "C11": ("exploration",
+            "deterministic simulation with fault injection: loader callback sequence vs model flattening under permuted glob enumeration on three file systems (simulated VFS behind ProdFileSystem, FakeFileSystem, real directory), split-vs-unsplit report equality, read faults injected one at a time",
+            "A seeded, order-sensitive entry sequence is cut at entry boundaries into an include tree (up to 8 files, depth 3; literal, sub-directory, '../', './', 'sub/../x/' and '*'/'??' glob includes relative to the including file; dot-files and wrong-base-directory decoys next to the matches; sometimes an include matching nothing). The (path, entry) sequence handed to the Loader::load callback must equal the model's flattening for every glob enumeration order the simulated file system returns (2-4 per world; the thorough tier walks permutations systematically), on the repository's FakeFileSystem, and (1 run in 16) in a real directory through the real OS. balance/register/accounts/flatten of the tree must equal those of the one-file ledger. vanish/EIO/permission/invalid-UTF-8 on a matched file must make loading fail; a failing canonicalize must change nothing.",
+            "okane's own parser, applied to each file separately, defines the entries of a file. Level is exploration over trees; per tree the fault placement is one fault at a time on 0-2 drawn files, not every file."),
+    "C12": ("exploration",
+            "deterministic simulation: metamorphic pair (canonical-name ledger A, alias-rewritten ledger B in the same include tree) reported by simulated processes with different hash seeds and glob orders; byte equality of reports, no alias shown, model comparison; planted alias conflicts must be rejected at the declaration",
+            "Ledger A uses canonical names only; ledger B rewrites each occurrence after its declaration in load order (posting account; commodity in amount, cost, lot, assertion) to a declared alias with probability 1, 1/2 or 1/4. Declarations sit before, between and after first uses and the ledger is cut into an include tree, so declaration-before-use crosses files and glob enumeration orders. balance, register, register ACCOUNT and accounts must be byte-identical between A (process 0) and B (1-2 further processes) and show no alias; B's balances must equal the model's. In 1 run of 4 a conflicting declaration is planted and must be rejected at that declaration.",
+            "B is derived from A at execution time, so a minimised tape is still a pair differing only in aliases."),
+    "C14": ("exploration",
+            "deterministic simulation with fault injection: one invalid entry (semantic kinds judged by the reference model, broken syntax, or a file torn inside its last entry) planted at any position of an include tree with CRLF / multi-byte / blank-run prefixes; file and line numbers of the rendered diagnostic compared with the simulator's own renderer extents in 2-3 simulated processes",
+            "A seeded valid ledger with arbitrary preceding content is cut into an include tree of up to 6 files and one invalid entry is planted at any position: unbalanced, false assertion, two omitted amounts, ill-typed expression, alias conflict (the reference model says which entry is rejected first and with which kind), hand-written and mutated broken syntax, or a torn tail. The rendered error chain must name the file holding the entry and every line number it shows must lie within the entry's extent, as recorded by the simulator's renderer.",
+            "For syntax errors the extent is the whole broken entry, not the exact point where parsing stopped; column numbers and underlined sub-spans are not judged."),
     "C13": ("exploration",
             "deterministic simulation: same world and argv run in 2-6 simulated processes differing in hash seed, glob enumeration order, read/write chunking, EINTR and clock; outputs compared byte for byte",
             "The property is schedule independence, and the simulator owns every schedule okane depends on: per-process hash keys (content-hashed interned strings + seeded SipHash for every HashMap/HashSet in okane), glob enumeration order, stream chunking with short reads/writes and EINTR, and the calendar date. Each seeded world (accepted and failing ledgers, multi-commodity accounts, price diamonds, include trees) is run with 2-6 commands in 2-6 processes; stdout bytes, success/failure and the rendered error chain must be identical.",
